@@ -43,8 +43,14 @@ def raw_block_symbols(R):
                 if sti is None or prog.types[sti].get("bits") != 16:
                     continue
                 vals = [v for (node, wr, wp, v) in eng.writes_log if wr == root and wp == ()]
-                if vals and any(isinstance(v, tuple) and v[0] == "i" and is_raw_expr(v[1]) for v in vals) and \
-                        all(isinstance(v, tuple) and v[0] == "i" and (is_raw_expr(v[1]) or not v[1][1] or single_sym(v[1]) == sid) for v in vals):
+
+                def self_step(e_):
+                    # `n = n.wrapping_add(k)`: a 16-bit counter stepped modulo 2^16 (the receiver may count instead of copying)
+                    s2 = single_sym(e_)
+                    n2 = eng.sym_names[s2] if s2 is not None else None
+                    return isinstance(n2, tuple) and n2 and n2[0] == "wrap" and n2[2] == 16 and single_sym(n2[3]) == sid and not n2[4][1]
+                if vals and any(isinstance(v, tuple) and v[0] == "i" and (is_raw_expr(v[1]) or self_step(v[1])) for v in vals) and \
+                        all(isinstance(v, tuple) and v[0] == "i" and (is_raw_expr(v[1]) or not v[1][1] or single_sym(v[1]) == sid or self_step(v[1])) for v in vals):
                     raw.add(sid)
                     changed = True
     return raw
